@@ -57,9 +57,33 @@ fn obs(pool: &[H], mon: &mut Mon, k: usize) -> Vec<i64> {
     row
 }
 
-pub fn run(_params: &[i64], ops: &Rows, mon: &mut Mon) -> Rows {
-    exec(ops, None, mon)
+/// params[0] == 1: every handle is created with FOREIGN functions (as another module or a C caller would build it through the published
+/// {instance, clone_fn, drop_fn} layout): counting wrappers that do what the local functions do.  Every clone of a non-empty handle must then
+/// run the stored clone function once, every release the stored drop function once, and nothing else may call either.
+pub fn run(params: &[i64], ops: &Rows, mon: &mut Mon) -> Rows {
+    FOREIGN_ON.store(params.get(0).copied().unwrap_or(0) == 1, SeqCst);
+    let r = exec(ops, None, mon);
+    FOREIGN_ON.store(false, SeqCst);
+    r
 }
+
+use std::sync::atomic::{AtomicBool, AtomicI64, Ordering::SeqCst};
+static FOREIGN_ON: AtomicBool = AtomicBool::new(false);
+static F_CLONES: AtomicI64 = AtomicI64::new(0);
+static F_DROPS: AtomicI64 = AtomicI64::new(0);
+#[repr(C)]
+struct Mirror { instance: *const Tok, clone_fn: Option<unsafe extern "C" fn(*const Tok) -> *const Tok>, drop_fn: Option<unsafe extern "C" fn(*const Tok)> }
+unsafe extern "C" fn f_clone(p: *const Tok) -> *const Tok { if !p.is_null() { F_CLONES.fetch_add(1, SeqCst); Arc::increment_strong_count(p); } p }
+unsafe extern "C" fn f_drop(p: *const Tok) { if !p.is_null() { F_DROPS.fetch_add(1, SeqCst); Arc::decrement_strong_count(p); } }
+fn foreign_a(a: CArc<Tok>) -> CArc<Tok> {
+    if !FOREIGN_ON.load(SeqCst) { return a; }
+    unsafe { let mut m: Mirror = std::mem::transmute(a); if !m.instance.is_null() { m.clone_fn = Some(f_clone); m.drop_fn = Some(f_drop); } std::mem::transmute(m) }
+}
+fn foreign_s(a: CArcSome<Tok>) -> CArcSome<Tok> {
+    if !FOREIGN_ON.load(SeqCst) { return a; }
+    unsafe { let mut m: Mirror = std::mem::transmute(a); m.clone_fn = Some(f_clone); m.drop_fn = Some(f_drop); std::mem::transmute(m) }
+}
+fn nonempty_c(h: &H) -> bool { match h { H::A(a) => a.as_ref().is_some(), H::OA(a) => a.as_ref().is_some(), H::S(_) | H::OS(_) => true, _ => false } }
 
 /// kinds only: what one thread can observe deterministically while other threads change the counts
 fn obs_kinds(pool: &[H], roots: &[Option<Arc<Tok>>], mon: &mut Mon, k: usize) -> Vec<i64> {
@@ -139,12 +163,14 @@ fn exec(ops: &Rows, roots: Option<&[Option<Arc<Tok>>]>, mon: &mut Mon) -> Rows {
         let slot = |i: i64| -> usize { i as usize };
         let take = |pool: &mut Vec<H>, i: usize| -> H { if i < pool.len() { std::mem::replace(&mut pool[i], H::Dead) } else { H::Dead } };
         let mut res: Option<Option<H>> = None; // None = rejected; Some(None) = ok, no new slot; Some(Some(h)) = new slot
+        let (fc0, fd0) = (F_CLONES.load(SeqCst), F_DROPS.load(SeqCst));
+        let src_nonempty = op.get(1).map(|i| (*i as usize) < pool.len() && *i >= 0 && nonempty_c(&pool[*i as usize])).unwrap_or(false);
         match c {
-            0 => res = Some(Some(H::A(match roots { None => CArc::from(Tok::mk(op[2])), Some(r) => CArc::from(r[k].clone().unwrap()) }))),
-            1 => res = Some(Some(H::S(match roots { None => CArcSome::from(Tok::mk(op[2])), Some(r) => CArcSome::from(r[k].clone().unwrap()) }))),
+            0 => res = Some(Some(H::A(foreign_a(match roots { None => CArc::from(Tok::mk(op[2])), Some(r) => CArc::from(r[k].clone().unwrap()) })))),
+            1 => res = Some(Some(H::S(foreign_s(match roots { None => CArcSome::from(Tok::mk(op[2])), Some(r) => CArcSome::from(r[k].clone().unwrap()) })))),
             2 => res = Some(Some(H::Std(match roots { None => Arc::new(Tok::mk(op[2])), Some(r) => r[k].clone().unwrap() }))),
-            3 => { let i = slot(op[1]); match take(&mut pool, i) { H::Std(a) => res = Some(Some(H::A(if k % 2 == 0 { CArc::from(a) } else { CArc::from(Some(a)) }))), o => { if i < pool.len() { pool[i] = o; } } } }
-            4 => { let i = slot(op[1]); match take(&mut pool, i) { H::Std(a) => res = Some(Some(H::S(CArcSome::from(a)))), o => { if i < pool.len() { pool[i] = o; } } } }
+            3 => { let i = slot(op[1]); match take(&mut pool, i) { H::Std(a) => res = Some(Some(H::A(foreign_a(if k % 2 == 0 { CArc::from(a) } else { CArc::from(Some(a)) })))), o => { if i < pool.len() { pool[i] = o; } } } }
+            4 => { let i = slot(op[1]); match take(&mut pool, i) { H::Std(a) => res = Some(Some(H::S(foreign_s(CArcSome::from(a))))), o => { if i < pool.len() { pool[i] = o; } } } }
             5 => res = Some(Some(H::A(if k % 2 == 0 { CArc::from(None::<Arc<Tok>>) } else { CArc::default() }))),
             6 => { let i = slot(op[1]); if i < pool.len() { match &pool[i] {
                     H::A(a) => res = Some(Some(H::A(a.clone()))),
@@ -177,6 +203,11 @@ fn exec(ops: &Rows, roots: Option<&[Option<Arc<Tok>>]>, mon: &mut Mon) -> Rows {
                     o => { if i < pool.len() { pool[i] = o; } } } }
             12 => { let i = slot(op[1]); match take(&mut pool, i) { H::Dead => {}, h => { drop(h); res = Some(None); } } }
             _ => {}
+        }
+        if roots.is_none() && FOREIGN_ON.load(SeqCst) {
+            let (dc, dd) = (F_CLONES.load(SeqCst) - fc0, F_DROPS.load(SeqCst) - fd0);
+            let (wc, wd) = match c { 6 if src_nonempty => (1, 0), 12 if src_nonempty => (0, 1), _ => (0, 0) };
+            if (dc, dd) != (wc, wd) { mon.fail(format!("op{} ({}) on a handle carrying foreign clone/drop functions: the stored clone function ran {} times and the stored drop function {} times, expected {} and {}", k, c, dc, dd, wc, wd)); }
         }
         let row = match res {
             None => vec![c, 0, -1],
